@@ -48,7 +48,9 @@ theorem set_not_torn {float : Bool} {mem : UInt64} {op : String} {e : Ev} {mem' 
   simp only at h
   split at h
   · cases h
-  · rw [hn] at h
+  · unfold aEvStart at h
+    simp only at h
+    rw [hn] at h
     have h1 : ("set" == "get") = false := by decide
     have h2 : ("set" == "set" || "set" == "reset") = true := by decide
     simp only [h1, h2, Bool.false_eq_true, if_false, if_true] at h
